@@ -123,7 +123,7 @@ impl Runner {
                 c.root_op(w[0]);
                 self.after(mode, None)
             }
-            ["sig", ..] | ["memo", ..] | ["eff", ..] | ["reff", ..] => {
+            ["sig", ..] | ["memo", ..] | ["eff", ..] | ["reff", ..] | ["seff", ..] | ["ieff", ..] | ["weff", ..] | ["wieff", ..] => {
                 let Some(d) = parse_def(&w) else { return "bad-op".into() };
                 let (n, ok) = {
                     let g = c.sh.lock().unwrap();
@@ -151,7 +151,13 @@ impl Runner {
                         }
                     };
                 }
-                c.define(d);
+                match w[0] {
+                    "seff" => c.define_kind(d, EffKind::Sync),
+                    "ieff" => c.define_kind(d, EffKind::Isomorphic),
+                    "weff" => c.define_kind(d, EffKind::Watch(false)),
+                    "wieff" => c.define_kind(d, EffKind::Watch(true)),
+                    _ => c.define(d),
+                }
                 match mode {
                     Mode::C02 => {
                         hx_common::sched::take_wakes();
